@@ -520,6 +520,12 @@ def run(rep):
                               'under the default recursion limit' % (
                                   proc, fam, depth),
                               {'proc': proc, 'fam': fam})
+            except MemoryError as e:
+                # (address space limited to 6 GB for the shard)
+                rep.violation('C20/memory-exhausted/%s' % proc,
+                              '%s on a %s chain of depth %d needs more than '
+                              '6 GB of memory' % (proc, fam, depth),
+                              {'proc': proc, 'fam': fam})
             except Exception as e:
                 rep.violation('C20/raises/%s/%s/%s' % (
                     proc, fam, common.exc_name(e)),
